@@ -34,6 +34,10 @@ func checkC33(c *Ctx) (string, []string) {
 				return
 			}
 			fld := fieldName(fa.X.Type(), fa.Field)
+			if vs := exprStr(st.Val, shapeOpts); fld == "InstructionData" && strings.HasPrefix(vs, "PVM.zeroExtend(") && strings.HasSuffix(vs, ".InstructionData)") {
+				c.OK("C33.program-from-deblob", funcKey(f)+" · zero-extended copy", in.Pos(), "code of an existing program, zero-extended for execution (GP A.3)")
+				return
+			}
 			c.Bad("C33.program-from-deblob", funcKey(f)+" · Program."+fld, in.Pos(), "a Program's %s is assigned outside DeBlobProgramCode: the machine would run bytes that were never validated/pre-decoded", fld)
 		})
 		for _, k := range callsIn(f, c.Obj("PVM", "NewHost"), c.Obj("PVM", "NewInterpreter")) {
